@@ -5,7 +5,10 @@
 // adds no behaviour to crs-toolchain.
 package utils
 
-import "bytes"
+import (
+	"bytes"
+	"strings"
+)
 
 // SpecBsRun is the number of consecutive backslashes that end right before index i.
 func SpecBsRun(s string, i int) int {
@@ -238,3 +241,37 @@ func iteS(c bool, a, b string) string {
 	}
 	return b
 }
+
+// OpaqueReplaceAll: strings.ReplaceAll (uninterpreted; assumed to be a function of its
+// arguments). Facts used: the result consists of bytes of s and of new (so printable stays
+// printable); a subject without the first byte of `old` is unchanged; a subject equal to
+// `old` becomes `new`.
+func OpaqueReplaceAll(s, old, new string) string { return strings.ReplaceAll(s, old, new) }
+
+// SpecPrintableU: every byte is printable ASCII (0x20..0x7e).
+func SpecPrintableU(s string) bool {
+	return forall(0, len(s), func(i int) bool { return 32 <= s[i] && s[i] <= 126 })
+}
+
+//@ extern strings.ReplaceAll
+//@   params s old new
+//@   results r
+//@   ensures r == OpaqueReplaceAll(s, old, new)
+//@   ensures implies(SpecPrintableU(s) && SpecPrintableU(new), SpecPrintableU(r))
+//@   ensures implies(len(old) >= 1 && forall(0, len(s), func(i int) bool { return s[i] != old[0] }), r == s)
+//@   ensures implies(len(old) >= 1 && s == old, r == new)
+
+// strings.Index: 0 exactly when s starts with substr (for a non-empty substr).
+//@ extern strings.Index
+//@   params s substr
+//@   results r
+//@   ensures implies(len(substr) >= 1, (r == 0) == SpecHasPrefix(s, substr))
+//@   ensures r >= -1
+
+func OpaqueTrimSpace(s string) string { return strings.TrimSpace(s) }
+
+//@ extern strings.TrimSpace
+//@   params s
+//@   results r
+//@   ensures r == OpaqueTrimSpace(s)
+//@   ensures implies(len(s) == 0, len(r) == 0)
